@@ -27,6 +27,16 @@ CLAIMED = {
   note="Does not decide timing (success within the timeout) or goroutine scheduling; arrival order is irrelevant by construction because the collector only counts. Frozen exceptions: shard group gone, request without db/rp from an old sender.",
   technique="static analysis: path exploration with markers and outcome facts, integer expression folding, site rules",
   ref="§4 C03"),
+ "C06": dict(
+  text="Structural clauses of metadata determinism and invariants: nothing nondeterministic (clock outside the excluded DeletedAt stamps, randomness, goroutines, select, order-sensitive map iteration) is reachable from storeFSM.Apply within services/meta; copy-on-write apply discipline on every path (only a clone is mutated and installed, never after a failed call, nothing mutated or rejected after installation; frozen who-may-store table); ID counters only grow; Apply's switch, the command-type registry and the validator table agree; the time predicates of shard-group selection, clipping, truncation and expiry equal their specification on every weak ordering of their operands (exhaustive truth tables); the owner round-robin advances one node per replica.",
+  note="Does not decide disjointness/ID uniqueness after arbitrary command sequences as arithmetic facts, or evenness of spread beyond the round-robin stride. Trusts hashicorp/raft to deliver the same log everywhere.",
+  technique="static analysis: call-graph closure lint, outcome dataflow + marked path exploration, exhaustive evaluation of compiled comparison predicates over all weak orderings",
+  ref="§4 C06"),
+ "C07": dict(
+  text="Structural clauses of metadata durability/convergence: clone completeness over the type graph of meta.Data (every reference-holding field re-allocated, reference-holding elements cloned element-wise), the raft snapshot captures an immutable *Data under the store lock and nothing that reaches the live store; no accepted request can panic Apply (asserted extension = validated extension per command type; no dereference of a may-return-nil lookup without a nil test anywhere in Apply's closure); marshal/unmarshal field agreement for every struct of the Data graph; acknowledgement only after raft commit and, on the client, after the cache reached the command's index.",
+  note="Does not decide raft itself, leader failover or convergence timing. Frozen exceptions: Data.adminUserExists is derived; retryUntilExec returns nil while the client is closing.",
+  technique="static analysis: type-graph walk with per-field obligations, nil-fact dataflow, marshal/unmarshal field agreement",
+  ref="§4 C07"),
 }
 
 NA = {
